@@ -54,6 +54,10 @@ def run(ctx, idx):
     ctx.rule("C12.d", "No file-opening-for-write, print, dataset creation or os mutation is reachable from from_source or from the validation pre-pass other than through Command.run.")
     ctx.rule("C12.e", "Library declarations are checkable: every built-in command declares a non-None output; every kwargs key an execute reads is a declared input (or injected by the delegating subclass); every required declared input is read; fuzzy flags are literal booleans.")
     ctx.rule("C12.f", "At each gate the raised error's payload arguments flow from the object the guarding condition tested.")
+    ctx.rule("C12.h", "Acceptance depends on the text alone: the parser keeps no flag from one source to the next (the EEMS 2.0 marker is per parse), so a model is not converted - and its NewFieldName / OutFileName arguments silently dropped or its writers rejected - because of a file loaded earlier in the process (C16.c's reading of the parser state).")
+    from .C16 import parser_state
+
+    parser_state(ctx, idx, "C12.h")
     attr = command_table_attr(idx, A)
     # ------------------------------------------------------------------ a: from_source
     fs = prog.methods["from_source"]
